@@ -710,7 +710,8 @@ def rw_closure_specs(toks, specs, rep, qual):
                 if sg == pat:
                     hits.append(idx)
             if len(hits) < nth:
-                rep.append(("LOST", f"closure {text!r} #{nth} not found: contract not attached"))
+                if k[0] != "anchor?":
+                    rep.append(("LOST", f"closure {text!r} #{nth} not found: contract not attached"))
                 continue
             resolved.append((hits[nth - 1], retdecl, ens))
         else:
@@ -923,12 +924,13 @@ def parse_template(text):
         if mm:
             cur.desugar_for = [int(x) for x in mm.group(1).replace(",", " ").split()]
             i += 1; continue
-        mm = re.match(r'^closure\s+"((?:[^"\\]|\\.)*)"\s*(?:#(\d+))?\s*->\s*(\((?:[^()]|\([^()]*\))*\))\s*(?:requires\s+(.*?)\s+)?ensures\s*:\s?(.*)$', body)
+        mm = re.match(r'^closure(\?)?\s+"((?:[^"\\]|\\.)*)"\s*(?:#(\d+))?\s*->\s*(\((?:[^()]|\([^()]*\))*\))\s*(?:requires\s+(.*?)\s+)?ensures\s*:\s?(.*)$', body)
         if mm:
-            c = Clause("closure", "", mm.group(5))
+            c = Clause("closure", "", mm.group(6))
             c.loop = -2
-            rd = mm.group(3) + (f" requires {mm.group(4)}" if mm.group(4) else "")
-            cur.closures.append([("anchor", _unesc(mm.group(1)), int(mm.group(2) or 1)), rd, c])
+            rd = mm.group(4) + (f" requires {mm.group(5)}" if mm.group(5) else "")
+            # `closure?` = contract for an alternative shape of the code: silently skipped when that shape is absent
+            cur.closures.append([("anchor?" if mm.group(1) else "anchor", _unesc(mm.group(2)), int(mm.group(3) or 1)), rd, c])
             last = ("clause", c); i += 1; continue
         mm = re.match(r"^closure\s+(\d+)\s*->\s*(\((?:[^()]|\([^()]*\))*\))\s*(?:requires\s+(.*?)\s+)?ensures\s*:\s?(.*)$", body)
         if mm:
